@@ -496,7 +496,13 @@ class Interp:
             env2 = Env({st.target.id: it.at(i)}, env, env.module)
             env2.fn_qual = getattr(env, "fn_qual", None)
             conds = []
-            for pcnd, (kind, v) in c.merged(lambda: self.exec_block(st.body, env2, in_class)):
+            def one_iteration():
+                try:
+                    self.exec_block(st.body, env2, in_class)
+                except ContinueEx:
+                    pass
+
+            for pcnd, (kind, v) in c.merged(one_iteration):
                 if kind == "raise":
                     conds.append(pcnd)
                     exc_box.setdefault("exc", v)
